@@ -27,6 +27,21 @@ static void emit_day(FILE *o, unsigned s, unsigned y, unsigned m, unsigned d)
 	fprintf(o, ",\"h\":[%u,%u,%u],\"back\":[%u,%u,%u],\"ndim\":%u,\"wd\":%u,\"hscale\":%u}\n", h.y, h.m, h.d, b.y, b.m, b.d, nd, wd,
 		echs_nul_instant_p(h) ? 0 : s);
 }
+static void emit_hday(FILE *o, unsigned s, unsigned y, unsigned m, unsigned d)
+{
+	echs_instant_t h = echs_instant_attach_scale(mkinst(y, m, d, 255, 0, 0, 0), (echs_scale_t)s), g = {.u = 0}, b = {.u = 0};
+	unsigned hnd = 0;
+	nd_crashed = 0;
+	if (!sigsetjmp(nd_jb, 1)) {
+		hnd = echs_scale_ndim((echs_scale_t)s, y, m);	/* the length the code gives that month (0: unknown) */
+		g = echs_instant_rescale(h, SCALE_GREGORIAN);
+		if (!echs_nul_instant_p(g)) b = echs_instant_detach_scale(echs_instant_rescale(echs_instant_detach_scale(g), (echs_scale_t)s));
+		g = echs_instant_detach_scale(g);
+	}
+	fprintf(o, "{\"e\":\"HDay\",\"sc\":%u,\"h\":[%u,%u,%u]", s, y, m, d);
+	if (nd_crashed) { fputs(",\"crash\":true}\n", o); return; }
+	fprintf(o, ",\"g\":[%u,%u,%u],\"back\":[%u,%u,%u],\"ndim\":%u}\n", g.y, g.m, g.d, b.y, b.m, b.d, hnd);
+}
 int main(int argc, char *argv[])
 {
 	unsigned s = argc > 1 ? atoi(argv[1]) : 1;
@@ -70,19 +85,15 @@ int main(int argc, char *argv[])
 	}
 	/* the other direction: Hijri dates from year 1 to 1600, in and far outside the coverage of the table calendars */
 	for (unsigned y = 1; y <= 1600; y += (thorough ? 1 : 1 + nd_rnd(3))) for (unsigned m = 1 + (thorough ? 0 : nd_rnd(3)); m <= 12; m += (thorough ? 1 : 3)) {
-		unsigned d = 1 + nd_rnd(30);	/* 30th days too: a month of 29 days has none (skipped by the judge through the month length) */
-		echs_instant_t h = echs_instant_attach_scale(mkinst(y, m, d, 255, 0, 0, 0), (echs_scale_t)s), g = {.u = 0}, b = {.u = 0};
-		unsigned hnd = 0;
-		nd_crashed = 0;
-		if (!sigsetjmp(nd_jb, 1)) {
-			hnd = echs_scale_ndim((echs_scale_t)s, y, m);	/* the length the code gives that month (0: unknown) */
-			g = echs_instant_rescale(h, SCALE_GREGORIAN);
-			if (!echs_nul_instant_p(g)) b = echs_instant_detach_scale(echs_instant_rescale(echs_instant_detach_scale(g), (echs_scale_t)s));
-			g = echs_instant_detach_scale(g);
-		}
-		fprintf(o, "{\"e\":\"HDay\",\"sc\":%u,\"h\":[%u,%u,%u]", s, y, m, d);
-		if (nd_crashed) { fputs(",\"crash\":true}\n", o); continue; }
-		fprintf(o, ",\"g\":[%u,%u,%u],\"back\":[%u,%u,%u],\"ndim\":%u}\n", g.y, g.m, g.d, b.y, b.m, b.d, hnd);
+		/* 30th days too: a month of 29 days has none (skipped by the judge through the month length) */
+		emit_hday(o, s, y, m, 1 + nd_rnd(30));
+	}
+	/* ... and every month of the Hijri years in which the table calendars begin and end (1356, 1444, 1500) with their neighbours:
+	 * the first and the last month of a table, and the months just outside */
+	static const unsigned edge[] = {1355, 1356, 1357, 1443, 1444, 1445, 1499, 1500, 1501, 1502};
+	for (size_t k = 0; k < sizeof(edge) / sizeof(*edge); k++) for (unsigned m = 1; m <= 12; m++) {
+		static const unsigned ds[] = {1, 2, 15, 28, 29, 30};
+		for (size_t j = 0; j < 6; j++) emit_hday(o, s, edge[k], m, ds[j]);
 	}
 	fflush(o);
 	return 0;
